@@ -115,7 +115,7 @@ class End:
             drop = False
             for op in w.script.get((self.dir, idx), ()):
                 if op[0] == "inject":
-                    out.append(plain_packet(op[1]))
+                    out.append(plain_packet(op[1], op[2] if len(op) > 2 else 0))
                     self.log.append(("inject", idx, op[1]))
                 elif op[0] == "drop":
                     drop = True
@@ -161,13 +161,14 @@ class End:
             w.cv.notify_all()
 
 
-def plain_packet(ptype):
-    """An unencrypted SSH binary packet carrying one message of the given type."""
+def plain_packet(ptype, flag=0):
+    """An unencrypted SSH binary packet carrying one message of the given type (flag: DEBUG's
+    always_display)."""
     import struct
     if ptype == IGNORE:
         payload = bytes([2]) + struct.pack(">I", 4) + b"verf"
     elif ptype == DEBUG_:
-        payload = bytes([4, 0]) + struct.pack(">I", 4) + b"verf" + struct.pack(">I", 0)
+        payload = bytes([4, 1 if flag else 0]) + struct.pack(">I", 4) + b"verf" + struct.pack(">I", 0)
     elif ptype == UNIMPL:
         payload = bytes([3]) + struct.pack(">I", 0)
     else:
@@ -355,9 +356,19 @@ def quiesce(wire, ends, transports, extra_busy=lambda: False, limit=60.0):
 
 
 def run_real(ctx_repo, kex_name, strict_c, strict_s, script, do_auth=True, do_rekey=0, ext_info=True,
-             once_c=False, once_s=False, suite=None, mpos_c=None, mpos_s=None, preset=None):
-    """Run one scenario on the real code; returns the observation dict."""
+             once_c=False, once_s=False, suite=None, mpos_c=None, mpos_s=None, preset=None, opts=None):
+    """Run one scenario on the real code; returns the observation dict.
+    opts: documented non-default options under which the property must hold just the same:
+    {"keepalive": "c"|"s"|"cs", "log": "debug", "compress": True}."""
+    import logging
     import paramiko
+    opts = opts or {}
+    lg = logging.getLogger("paramiko")
+    if not lg.handlers:
+        lg.addHandler(logging.NullHandler())
+    lg.propagate = False
+    old_level = lg.level
+    lg.setLevel(logging.DEBUG if opts.get("log") == "debug" else logging.CRITICAL)
     Recorder = make_recorder()
     T, Once = transport_class()
     do_rekey = int(do_rekey)
@@ -398,6 +409,11 @@ def run_real(ctx_repo, kex_name, strict_c, strict_s, script, do_auth=True, do_re
         for key, v in (preset or {}).items():
             t_ = tc if key[0] == "c" else ts
             setattr(t_.packetizer, "_Packetizer__sequence_number_" + key[2:], int(v))
+        for ch, t_ in (("c", tc), ("s", ts)):
+            if ch in (opts.get("keepalive") or ""):
+                t_.set_keepalive(3600)          # enabled, but never due within a scenario
+            if opts.get("compress"):
+                t_.use_compression(True)
         evc, evs = threading.Event(), threading.Event()
         ts.start_server(event=evs, server=server_interface())
         tc.start_client(event=evc)
@@ -466,6 +482,7 @@ def run_real(ctx_repo, kex_name, strict_c, strict_s, script, do_auth=True, do_re
                 "relay": list(e.log),
             }
     finally:
+        lg.setLevel(old_level)
         for t in (tc, ts):
             try:
                 t.close()
@@ -546,7 +563,7 @@ def oracle(ctx, sc, obs):
     case = {"kex": sc["kex"], "strict_c": sc["strict_c"], "strict_s": sc["strict_s"], "rekey": int(sc["rekey"]),
             "once_c": bool(sc.get("once_c")), "once_s": bool(sc.get("once_s")),
             "suite": sc.get("suite"), "mpos_c": sc.get("mpos_c"), "mpos_s": sc.get("mpos_s"),
-            "preset": dict(sc.get("preset") or {}),
+            "preset": dict(sc.get("preset") or {}), "opts": dict(sc.get("opts") or {}),
             "script": [[d, i, list(op)] for (d, i), ops in sorted(sc["script"].items()) for op in ops]}
     both = sc["strict_c"] and sc["strict_s"]
     pre = sc.get("preset") or {}
@@ -554,6 +571,18 @@ def oracle(ctx, sc, obs):
         d = obs[me]
         o = obs[other]
         rx, tx = d["rx"], d["tx"]
+        # (00) the property's own observable, independent of what the recorder saw: with strict kex
+        # advertised by both sides, a packet the relay inserted into the stream towards this side at or
+        # before the sender's NEWKEYS must keep this side's initial key exchange from completing
+        # (the relay's log belongs to the sending end)
+        if both:
+            nk_to_me = streams(kex_family(sc["kex"]))["s2c" if me == "c" else "c2s"].index(21)
+            ins = [e for e in o["relay"] if e[0] == "inject" and e[1] <= nk_to_me and e[2] != NEWKEYS]
+            if ins and d["done"]:
+                ctx.fail("strict-injection-survived", "both sides advertise strict kex, the relay inserted packet(s) "
+                         "%r (index, type) into the initial handshake towards the %s, yet its initial key exchange "
+                         "completed" % ([(e[1], e[2]) for e in ins], "client" if me == "c" else "server"),
+                         case=case, expected="MessageOrderError before initial_kex_done", observed=d)
         # (0) neither counter may pass 2**32 - 1 while the initial key exchange is running (otherwise a
         # KEXINIT preceded by 2**32 packets would carry sequence number 0 again): the packet that would
         # take the counter from 0xffffffff to 0 must end the connection, in either direction
@@ -658,8 +687,8 @@ def build_scenarios(ctx, kex_names):
     scs = []
 
     def add(kex, sc_, ss_, script, rekey=0, kind="inject", once_c=False, once_s=False, suite=None,
-            mpos_c=None, mpos_s=None, preset=None):
-        scs.append({"preset": dict(preset or {}), "kex": kex, "strict_c": sc_, "strict_s": ss_, "script": script, "rekey": int(rekey),
+            mpos_c=None, mpos_s=None, preset=None, opts=None):
+        scs.append({"preset": dict(preset or {}), "opts": dict(opts or {}), "kex": kex, "strict_c": sc_, "strict_s": ss_, "script": script, "rekey": int(rekey),
                     "kind": kind, "once_c": once_c, "once_s": once_s, "suite": suite,
                     "mpos_c": mpos_c, "mpos_s": mpos_s})
 
@@ -667,9 +696,9 @@ def build_scenarios(ctx, kex_names):
     for n, kex in enumerate(kex_names):
         fam = kex_family(kex)
         st = streams(fam)
-        full = ctx.thorough or n == 0
+        full = n == 0 or (ctx.thorough and (n < 3 or fam == GEX))
         configs = [(True, True), (False, False), (True, False), (False, True)] if full else \
-            ([(True, True), (False, False)] if fam == GEX else [(True, True)])
+            ([(True, True), (False, False)] if (fam == GEX or ctx.thorough) else [(True, True)])
         # clean runs (with re-key) for every strict configuration
         for sc_, ss_ in configs:
             add(kex, sc_, ss_, {}, rekey=1, kind="clean")
@@ -693,6 +722,30 @@ def build_scenarios(ctx, kex_names):
                     add(kex, True, True, {("c2s", nk_c): [("inject", DEBUG_)]}, kind="suite-" + suite, suite=suite)
                 if not suite.startswith("gcm"):
                     add(kex, False, False, {("s2c", nk_s): [("inject", IGNORE)]}, kind="suite-" + suite, suite=suite)
+            # documented non-default options: the strict-kex scenarios must come out the same with
+            # keepalives enabled before connecting, with logging at DEBUG (and a DEBUG message that asks to
+            # be displayed), with compression.  Quick: keepalive and log level always at the NEWKEYS
+            # position, one option set (rotating with the seed) over every position; thorough: all.
+            optsets = [{"keepalive": "cs"}, {"log": "debug"}, {"compress": True}, {"keepalive": "c", "log": "debug"},
+                       {"keepalive": "s", "compress": True}, {"keepalive": "cs", "log": "debug", "compress": True}]
+            rot = optsets[ctx.seed % len(optsets)]
+            for oi, o_ in enumerate(optsets):
+                whole = ctx.thorough or o_ is rot
+                if not whole and oi > 1:
+                    continue
+                for d in ("c2s", "s2c"):
+                    nk_d = st[d].index(21)
+                    for i in (range(1, nk_d + 1) if whole else [nk_d]):
+                        add(kex, True, True, {(d, i): [("inject", IGNORE)]}, kind="option", opts=o_)
+                        add(kex, True, True, {(d, i): [("inject", DEBUG_)]}, kind="option", opts=o_)
+                        if whole:
+                            add(kex, True, True, {(d, i): [("inject", DEBUG_, 1)]}, kind="option", opts=o_)
+                if whole:
+                    add(kex, True, True, {}, rekey=1, kind="option", opts=o_)
+                    add(kex, False, False, {("s2c", st["s2c"].index(21)): [("inject", IGNORE)]}, kind="option", opts=o_)
+            # a DEBUG message that asks to be displayed, default logging
+            for d in ("c2s", "s2c"):
+                add(kex, True, True, {(d, st[d].index(21)): [("inject", DEBUG_, 1)]}, kind="option")
             # counters at the 32-bit boundary, both directions, both roles
             M = 1 << 32
             nin = len(st["c2s"])          # packets of the initial exchange per direction (without EXT_INFO)
@@ -744,7 +797,7 @@ def build_scenarios(ctx, kex_names):
         for d in ("c2s", "s2c"):
             add(kex, True, True, {(d, st[d].index(21)): [("inject", NEWKEYS)]}, kind="forged-newkeys")
         # random multi-edit scripts
-        for _ in range((24 if ctx.thorough else 10) if full else 6):
+        for _ in range(((24 if n == 0 else 8) if ctx.thorough else 6) if full else 4):
             script = {}
             for _ in range(rng.randrange(2, 4)):
                 d = rng.choice(["c2s", "s2c"])
@@ -760,8 +813,6 @@ def build_scenarios(ctx, kex_names):
 
 
 def run(ctx):
-    import logging
-    logging.getLogger("paramiko").setLevel(logging.CRITICAL)
     from paramiko import Transport
     ctx.rule = ("enumeration: every position of the initial handshake x injected IGNORE/DEBUG/UNIMPLEMENTED/"
                 "type 192 (and DISCONNECT, a junk KEXINIT, a forged NEWKEYS) x both directions x strict on/off "
@@ -774,7 +825,9 @@ def run(ctx):
                 "by a global request that must be answered; AEAD (aes128/256-gcm), CBC+EtM and another CTR/HMAC suite; peers "
                 "that put the kex-strict name first / in the middle of their kex_algorithms list (either role, both); "
                 "sequence counters preset to 2**32-1 .. 2**32-(n+1) (inbound and outbound, both roles, strict and "
-                "not), alone and with IGNORE/DEBUG inserted ahead of the peer's KEXINIT (roll-over boundary). Every case is a full real client/server "
+                "not), alone and with IGNORE/DEBUG inserted ahead of the peer's KEXINIT (roll-over boundary); the strict injection scenarios again under documented options: set_keepalive before "
+                "connecting (either/both sides), logging at DEBUG, DEBUG messages with always_display set, "
+                "compression (rotating with the seed in the quick tier, all in thorough). Every case is a full real client/server "
                 "handshake; a case is non-trivial when its script is non-empty or it includes a re-key")
     ctx.trusted += ["gen/c09.py (AST + live-object translator of message numbers, kex engine tables, strict-kex "
                     "call sites and reset statements; fail-closed)",
@@ -804,16 +857,16 @@ def run(ctx):
     for sc in scs:
         obs = run_real(ctx.repo, sc["kex"], sc["strict_c"], sc["strict_s"], sc["script"],
                        do_auth=True, do_rekey=sc["rekey"], once_c=sc["once_c"], once_s=sc["once_s"],
-                       suite=sc["suite"], mpos_c=sc["mpos_c"], mpos_s=sc["mpos_s"], preset=sc["preset"])
+                       suite=sc["suite"], mpos_c=sc["mpos_c"], mpos_s=sc["mpos_s"], preset=sc["preset"], opts=sc["opts"])
         if not all(obs.get(k, True) for k in ("settled1", "settled2", "settled3")) or obs.get("auth_hang"):
             # retry once before believing anything timing dependent
             obs = run_real(ctx.repo, sc["kex"], sc["strict_c"], sc["strict_s"], sc["script"],
                            do_auth=True, do_rekey=sc["rekey"], once_c=sc["once_c"], once_s=sc["once_s"],
-                       suite=sc["suite"], mpos_c=sc["mpos_c"], mpos_s=sc["mpos_s"], preset=sc["preset"])
+                       suite=sc["suite"], mpos_c=sc["mpos_c"], mpos_s=sc["mpos_s"], preset=sc["preset"], opts=sc["opts"])
         case = oracle(ctx, sc, obs)
         ctx.count((sc["kex"], sc["strict_c"], sc["strict_s"], sorted(sc["script"].items()), sc["rekey"],
                    sc["once_c"], sc["once_s"], sc["suite"], sc["mpos_c"], sc["mpos_s"],
-                   sorted(sc["preset"].items())),
+                   sorted(sc["preset"].items()), sorted(sc["opts"].items())),
                   nontrivial=bool(sc["script"]) or bool(sc["rekey"]) or bool(sc["preset"]), kind=sc["kind"])
         if any(k.endswith("_out") for k in sc["preset"]):
             pass      # the outbound roll-over guard is not in the model: implementation-level oracle only
@@ -922,10 +975,11 @@ def replay(ctx, rep):
     sc = {"kex": case["kex"], "strict_c": case["strict_c"], "strict_s": case["strict_s"], "script": script,
           "rekey": int(case.get("rekey", 0)), "kind": "replay", "once_c": bool(case.get("once_c")),
           "once_s": bool(case.get("once_s")), "suite": case.get("suite"), "mpos_c": case.get("mpos_c"),
-          "mpos_s": case.get("mpos_s"), "preset": dict(case.get("preset") or {})}
+          "mpos_s": case.get("mpos_s"), "preset": dict(case.get("preset") or {}),
+          "opts": dict(case.get("opts") or {})}
     obs = run_real(ctx.repo, sc["kex"], sc["strict_c"], sc["strict_s"], script, do_auth=True, do_rekey=sc["rekey"],
                    once_c=sc["once_c"], once_s=sc["once_s"], suite=sc["suite"], mpos_c=sc["mpos_c"],
-                   mpos_s=sc["mpos_s"], preset=sc["preset"])
+                   mpos_s=sc["mpos_s"], preset=sc["preset"], opts=sc["opts"])
     ctx.count(("replay", repr(case)))
     ctx.count(("replay2", repr(case)))
     oracle(ctx, sc, obs)
